@@ -161,8 +161,16 @@ Fixpoint emit_all (o : oracle) (t : tracked) (ps : list paint) : list cmd :=
   end.
 
 (* ---------- pass 3 ---------- *)
+(* render.rs "Render images": Face, for every row of the image CursorTo + EraseChars(width),
+   then CursorTo + Image.  (Written out here, not shared with the naive painter of Screen.v;
+   ExecProofs.image_cmds_paint_image shows that the two coincide.) *)
+Definition image_cmds (o : oracle) (r c : nat) (f : face) (i : N) : list cmd :=
+  CFace f
+  :: flat_map (fun row => [CCursorTo row c; CEraseChars (snd (isz o i))]) (seq r (fst (isz o i)))
+  ++ [CCursorTo r c; CImage i r c].
+
 Definition pass3 (o : oracle) (imgs : list (nat * nat * face * N)) : list cmd :=
-  flat_map (fun '(r, c, f, i) => paint_image o r c f i) imgs.
+  flat_map (fun '(r, c, f, i) => image_cmds o r c f i) imgs.
 
 (* ---------- frame / clear / surface reset ---------- *)
 Definition frame (o : oracle) (s : rstate) : list cmd * rstate :=
